@@ -117,8 +117,13 @@ def table_keys(m: Module, fn, attr, name=None, nodes=None):
             v = st.value
             if nodes is not None:
                 nodes.append(v)
+            if isinstance(v, ast.Call) and dotted(v.func) in ("frozenset", "tuple", "set", "list") and len(v.args) == 1:
+                v = v.args[0]
             if isinstance(v, ast.Dict):
                 out |= {k.value for k in v.keys if isinstance(k, ast.Constant) and isinstance(k.value, str)}
+            elif isinstance(v, (ast.Tuple, ast.List, ast.Set)):
+                # `x.name in _INT_TYPES` with a hoisted constant collection
+                out |= {e.value for e in v.elts if isinstance(e, ast.Constant) and isinstance(e.value, str)}
             elif isinstance(v, ast.Call) and dotted(v.func) in ("dict", "MappingProxyType", "types.MappingProxyType"):
                 out |= {kw.arg for kw in v.keywords if kw.arg}
                 for a in v.args:
